@@ -135,6 +135,7 @@ type e1run struct {
 	props      map[string]bool // which properties' oracles are evaluated (nil: all)
 	fullFetch  bool            // re-fetch every listed URI at every observation
 	pruned     bool            // the word left the property's domain (a write that has to fail failed): not a violation
+	closed     bool            // a hook has called Close
 }
 
 func (r *e1run) add(prop, sig, format string, a ...any) {
@@ -152,7 +153,9 @@ func newE1(cfg muxCfg, dir string) (*e1run, error) {
 	if err != nil {
 		return nil, err
 	}
-	return &e1run{cfg: cfg, mi: mi, model: newModel(cfg), uris: map[string]*uriInfo{}, fullFetch: true, writeErrAt: -1}, nil
+	r := &e1run{cfg: cfg, mi: mi, model: newModel(cfg), uris: map[string]*uriInfo{}, fullFetch: true, writeErrAt: -1}
+	mi.onEncodeError = r.midCallback
+	return r, nil
 }
 
 func (r *e1run) streamIDs() []string {
@@ -348,6 +351,36 @@ func (r *e1run) observe() *obsStep {
 				r.add("C18", "expired-uri-serves-media", "%s left the playlist but still resolves after write %d", ui.uri, st.write)
 			}
 			ui.gone = true
+		}
+	}
+	// URIs of the muxer's own naming scheme that have never been advertised must not serve media either
+	if r.props == nil || r.props["C05"] {
+		for _, s := range m.streams {
+			mp4 := r.cfg.Variant != "mpegts"
+			guesses := []string{
+				segmentPath(s.prefix, s.id, s.nextSegmentID, mp4),   // the segment being written
+				segmentPath(s.prefix, s.id, s.nextSegmentID+1, mp4), // the one after it
+				segmentPath(s.prefix, s.id, s.nextSegmentID, !mp4),  // the other container's extension
+			}
+			if !mp4 {
+				guesses = append(guesses, initFilePath(s.prefix, s.id))
+			}
+			if r.cfg.Variant != "ll" {
+				// parts are an internal unit of the plain fMP4 variant: their URIs are never listed
+				for k := uint64(0); k < s.nextPartID && k < 4; k++ {
+					guesses = append(guesses, partPath(s.prefix, s.id, k), partPath(s.prefix, s.id, s.nextPartID-1-k))
+				}
+			} else {
+				guesses = append(guesses, partPath(s.prefix, s.id, s.nextPartID+1)) // beyond the preload hint
+			}
+			for _, g := range guesses {
+				if _, listed := r.uris[canon(g)]; listed {
+					continue
+				}
+				if rr := r.safeGet(g); rr.Status == 200 && rr.Body.Len() > 0 {
+					r.add("C05", "unadvertised-uri-serves-media", "%s has never been listed but returns %d bytes with status 200 after write %d", canon(g), rr.Body.Len(), st.write)
+				}
+			}
 		}
 	}
 	r.steps = append(r.steps, st)
